@@ -24,7 +24,7 @@ func scenarioC17(rc *RunCtx) *Violation {
 	o.Outdir = []int{0, 2, 4, 2, 1, 3}[g.n(6)]
 	o.OutExt = g.n(3)
 	if g.chance(50) {
-		o.EntryNames = []int{0, 1}[g.n(2)] // hash-free names
+		o.EntryNames = []int{0, 1, 6}[g.n(3)] // hash-free names
 		o.AssetNames = []int{2, 3, 0}[g.n(3)]
 	}
 	if o.Inject {
